@@ -106,7 +106,7 @@ PARSER_PARAMS = {
     'h40': {'quick': {'handler': 'plain', 'params': {'PARSE_N': 20, 'TAIL_N': 6}}, 'thorough': {'handler': 'plain', 'params': {'PARSE_N': 30, 'TAIL_N': 12}}},
 }
 # thorough tier: the all-bytes harnesses of v3.x are the longest single jobs; discharge them in parallel
-PARSER_PARAMS[r'h3[01]\.C\d\d_(Accept|Values|Parse)$'] = {'quick': {}, 'thorough': {'handler': 'plain'}}
+PARSER_PARAMS[r'h3[01]\.C\d\d_(Accept|Values|Parse)(Shaped)?$'] = {'quick': {}, 'thorough': {'handler': 'plain'}}
 # element-structured inputs (harness structInput): one run per SHAPE; each decimal digit is the length of one
 # '/'-separated element after the canonical base part, every byte of an element arbitrary except '/'
 STRUCT_SHAPES = {
@@ -143,7 +143,7 @@ PROPS['C01'] = {
 PROPS['C06'] = {
     'level': 'model_checking',
     'pkgs': ALLV,
-    'text': 'after a successful ParseVector(s) every Get(m) equals the value the reference tokeniser reads for m in s (not-defined when absent), for all inputs of the bounded spaces',
+    'text': 'after a successful ParseVector(s) every Get(m) equals the value the reference tokeniser reads for m in s (not-defined when absent), for all inputs of the shaped and element-structured spaces (the all-bytes space (a) contains no accepted string and is left to C01)',
     'bounds': PARSER_BOUNDS,
     'solvers': {'quick': ['z3'], 'thorough': ['z3', 'z3new']},
     'timeout': {'quick': 900, 'thorough': 1200},
@@ -250,7 +250,9 @@ PROPS['C02'] = {
     'technique': PROPS['C01']['technique'] + '; composition of lemmas',
 }
 PROPS['C17']['per_harness'].update({k: v for k, v in PARSER_PARAMS.items() if 'Struct' in k})
-PROPS['C06']['per_harness'] = dict(PARSER_PARAMS, **{'C06_Values$': {'quick': {'skip': True}, 'thorough': {}}})
+# C06_Values (every byte string up to PARSE_N) is not run in either tier: no string that short is accepted
+# (shortest vectors: 26 / 44 / 63 bytes), so it could only re-prove C01's "rejected" 14-33 times over
+PROPS['C06']['per_harness'] = dict(PARSER_PARAMS, **{'C06_Values$': {'skip': True}})
 PROPS['C14']['per_harness'] = dict(PARSER_PARAMS, **{'h20.C14_PoolIndependence$': {'quick': {'params': {'PARSE_N': 8}}, 'thorough': {'params': {'PARSE_N': 14}}},
                                                      'C14_VectorStable': {'handler': 'groups_decide', 'ignore_kinds': ['growth']}})
 
